@@ -34,7 +34,7 @@ class InstBundleElabPass(ElabPass):
 
         while module.instbundles:
             name, inst = module.instbundles.popitem()
-            module.namespace.pop(name)
+            self.dissolve(module, name)
             self.elaborate_instance_bundle(module, inst)
 
         return module
@@ -54,7 +54,7 @@ class InstBundleElabPass(ElabPass):
         signal_names_to_instances = {
             signame: module.add(
                 name=self.flatname(
-                    segments=[instbundle.name, signame], avoid=module.namespace
+                    segments=[instbundle.name, signame], avoid=self.taken(module)
                 ),
                 val=Instance(of=instbundle.of),
             )
